@@ -149,6 +149,31 @@ CLAIMED.update({
     ),
 })
 
+CLAIMED.update({
+    'C13': (
+        'proxy symbolic execution (bvx/z3) of ParameterSection (entrypoint listing, from_parameters, to_parameters) over solver-chosen annotation placements and symbolic values',
+        'Bounded symbolic model checking: for union trees up to depth 2/3 the subset of annotated nodes, the position of default/root names, the '
+        'entrypoint called, the Left/Right path and the leaf values are solver variables; the entrypoint list is compared with a reference and both round trips are discharged on every path.',
+        'Shapes and name pools as listed; duplicate names excluded.',
+        'DESIGN.md C13',
+    ),
+    'C12': (
+        'proxy symbolic execution (bvx/z3) of to_python_object/from_python_object, ContractData.encode/decode and ContractEntrypoint.encode/decode',
+        'Bounded symbolic model checking: symbolic values of a catalogue of storage/parameter type shapes (named/unnamed/partly named pairs, '
+        'duplicate names, unions, enums, options, collections with composite keys) are converted to Python objects and back; layout keys must be unique and stable.',
+        'Set/map keys are solver-chosen from small concrete universes (dict keys must be hashable); other leaves symbolic.',
+        'DESIGN.md C12',
+    ),
+    'C17': (
+        'proxy symbolic execution (bvx/z3) of instructions on the same symbolic values at an annotated and at the annotation-free type',
+        'Bounded symbolic model checking (differential): the solver chooses which nodes of a comb (or of collection element/key types) carry field or '
+        'type annotations; GET/UPDATE/UNPAIR n, UNPAIR, CAR, CDR, PACK, SOME, DUP, COMPARE, MAP, GET, MEM, ITER, CONS run on both typings and results, '
+        'failures, result types (annotation-stripped) and packed bytes must coincide.',
+        'Combs of 3..4 (quick) / 5 (thorough) leaves; <= 2 annotated nodes on 4-leaf combs in the quick tier; ints < 2^13.',
+        'DESIGN.md C17',
+    ),
+})
+
 NOT_APPLICABLE = {
     'C18': 'Parser is a PLY regex lexer + LALR tables + json; every input is concrete before the code under test runs, '
            'so a solver has nothing to decide (CrossHair regex model also unsound here). See DESIGN.md section 6.',
